@@ -1,15 +1,15 @@
 /-
-Tie 2 (facts): the set of numeric literals and the multiset of comparison/boolean operators of the Go functions below, REGENERATED from /repo on
+Tie 2 (facts): the set of numeric literals of the Go functions below, REGENERATED from /repo on
 every run (Gen/Facts.lean), are the ones the hand-written model was written against (C07 C08).
-A changed constant, a flipped or dropped comparison in one of these functions breaks the `decide` below even where no sampled
+A changed constant in one of these functions breaks the `decide` below even where no sampled
 input shows it; renaming and reordering of statements do not.
 -/
 import SpatialId.Gen.Facts
 namespace SpatialId.FactsShift
 open SpatialId
 
-/-- literals and comparisons of `operated.GetShiftingSpatialID` -/
+/-- numeric literals of `operated.GetShiftingSpatialID` -/
 theorem facts_operated_GetShiftingSpatialID :
-    Gen.funcFacts.lookup "operated.GetShiftingSpatialID" = some ["i:0", "i:1", "i:2", "op:!=", "op:<", "op:<", "op:<", "op:<", "op:>", "op:>", "op:||", "op:||"] := by decide
+    Gen.funcFacts.lookup "operated.GetShiftingSpatialID" = some ["i:0", "i:1", "i:2"] := by decide
 
 end SpatialId.FactsShift
